@@ -15,7 +15,10 @@ CLAIMS = {
  "C04": ("Lean 4 theorems (Props/C04.lean, in progress: maint_records/maint_answers) on top of the C01/C02 refinement: maintenance operations permute blobs without touching records, so every Spec-determined answer is unchanged; correspondence interleaves every lifecycle/maintenance call (sync and background) with data operations and re-asks all queries after every step; precondition oracle for lifecycle results.",
          "4/C04", "dump timing explored via settle points and the worker's own timing; offload/free/fsync are identity on the L2 state (filters by C10, sync by C12)",
          "Lean 4 proof (answers are a function of the history; maintenance preserves it) + correspondence"),
- "C13": ("Lean 4 worker model (Props/C13.lean, in progress): every message sequence leaves the worker alive, overflow switches, close terminates; correspondence drives all *_in_background calls in every active-blob state, then overflows the active blob past the debounce and closes; liveness oracle (worker alive, rotation happened, settle and close return).",
+ "C03": ("Lean 4 theorems (Props/C03.lean, in progress; logical level: restart preserves the record multiset, hence every Spec-determined answer, and sets next id above all ids); correspondence closes the storage and reopens damaged copies of the directory for every index file and every damage pattern of the property (removed, header only, written flag cleared, stale/larger blob_size, truncated at many lengths), eagerly and lazily, comparing all answers and next_blob_id with the values before the close.",
+         "4/C03", "byte-level index validation theorems follow with the L4/L5 layer; same-length corruption of an index body is outside the property's damage list",
+         "Lean 4 proof (answers are a function of blob contents) + implementation-vs-itself damage sweep + correspondence"),
+ "C13": ("Lean 4 worker model (Model/Worker.lean, Props/C13.lean: worker_total, overflow_switches, rotation_continues, dumps_complete, close_terminates over every message sequence; the pre-fix loop is refuted on a concrete witness); the driver executes background calls through the proved processMsgFixed; correspondence drives all *_in_background calls in every active-blob state, then overflows the active blob past the debounce and closes; liveness oracle (worker alive, rotation happened, settle and close return).",
          "4/C13", "wall-clock time abstracted to lower bounds (explicit 260 ms waits > 200 ms debounce); nondeterministic early rotations are taken from the implementation transcript and checked for enabledness",
          "Lean 4 proof over the worker's message loop + correspondence"),
  "C15": ("Lean 4 theorems (Props/C15.lean, in progress) that all counters are functions of the history; correspondence compares records_count, per-blob counts, active count, blobs_count, next_blob_id after every step incl. restarts with an oracle that recomputes them from the implementation's own per-blob probe.",
@@ -59,7 +62,7 @@ def main():
         }],
         "checks": checks,
         "not_applicable": na,
-        "notes": "fix: commits in /repo: 1b4de29 (C15 E1), c944800 (C04/C11 E2), 1a06a96 (C13 E3); see known_findings.json and DESIGN.md section 5",
+        "notes": "fix: commits in /repo: 1b4de29 (C15 E1), c944800 (C04/C11 E2), 1a06a96 (C13 E3), 62e8e7f (C03 E4); see known_findings.json and DESIGN.md section 5",
     }
     json.dump(m, open(os.path.join(ROOT, 'MANIFEST.json'), 'w'), indent=1)
 
